@@ -3,6 +3,7 @@ package main
 import (
 	"fmt"
 	"os"
+	"unicode/utf8"
 	"go/constant"
 	"go/token"
 	"go/types"
@@ -62,6 +63,8 @@ type Exec struct {
 	funcs    map[string]bool
 	toUpperMemo map[string]*StrV
 	undo     []func()
+	paranoid bool
+	paranoidN, paranoidBad int
 	onceDone map[*Obj]bool
 	pools    map[*Obj][]Val
 	known    map[*Term]bool // alternatives asserted on the current path (pointer-equal terms are implied)
@@ -130,6 +133,7 @@ func (ex *Exec) forkE(mk func() ([]*Term, []uint64), elim bool) (int, []uint64) 
 					continue
 				}
 				if def, feas := ex.dom.check(a); def && !feas {
+					ex.paranoidCheck(a, false)
 					continue
 				}
 				live, liveN = j, liveN+1
@@ -182,6 +186,7 @@ func (ex *Exec) advance(d *decision, dom *domState) bool {
 			def, feas := dom.check(a)
 			if def {
 				ex.fastN++
+				ex.paranoidCheck(a, feas)
 				if !feas {
 					continue
 				}
@@ -226,10 +231,12 @@ func (ex *Exec) branch(c *Term) bool {
 		// implied branches create no decision
 		if def, feas := ex.dom.check(c); def && !feas {
 			ex.impliedN++
+			ex.paranoidCheck(c, false)
 			return false
 		}
 		if def, feas := ex.dom.check(Not(c)); def && !feas {
 			ex.impliedN++
+			ex.paranoidCheck(Not(c), false)
 			return true
 		}
 	}
@@ -349,8 +356,15 @@ func (ex *Exec) call(fn *ssa.Function, args []Val, env []Val) Val {
 	if fn.Name() == "init" && fn.Pkg != ex.pkg {
 		return nil
 	}
-	if fn.Blocks == nil || (fn.Pkg != nil && fn.Pkg != ex.pkg) {
+	if fn.Blocks == nil {
 		return ex.intrinsic(fn, args)
+	}
+	if fn.Pkg != nil && fn.Pkg != ex.pkg {
+		if modelled[fn.String()] || strings.HasPrefix(fn.String(), "sync/atomic.") || strings.HasPrefix(fn.String(), "(*sync/atomic.") {
+			return ex.intrinsic(fn, args)
+		}
+		// a library function without a model: execute its own SSA body (pure Go helpers such as sort.Search,
+		// strings.EqualFold, unicode/utf8); anything it needs that is not supported ends the path as unsupported
 	}
 	if strings.HasPrefix(fn.Name(), "v") && fn.Pkg == ex.pkg {
 		if r, ok := ex.harnessIntrinsic(fn, args); ok {
@@ -468,6 +482,12 @@ func (ex *Exec) instr(fr *frame, in ssa.Instruction) {
 	case *ssa.Extract:
 		fr.env[fr.slots[x]] = ex.get(fr, x.Tuple).(TupleV)[x.Index]
 	case *ssa.FieldAddr:
+		if se, isSym := ex.get(fr, x.X).(*SymElem); isSym {
+			// address of a field of a table element at a symbolic index: concretise the index (forks on its values)
+			i := int(ex.concretize(se.idx))
+			fr.env[fr.slots[x]] = &PtrV{se.elems[i].sub[x.Field]}
+			return
+		}
 		p := ex.get(fr, x.X).(*PtrV)
 		if p.o == nil {
 			ex.rtpanic(x, "nil dereference")
@@ -521,9 +541,18 @@ func (ex *Exec) instr(fr *frame, in ssa.Instruction) {
 		fr.env[fr.slots[x]] = &MapV{m: map[string]Val{}}
 	case *ssa.MapUpdate:
 		m := ex.get(fr, x.Map).(*MapV)
-		k, ok := ex.get(fr, x.Key).(*StrV).concrete()
+		var k string
+		var ok bool
+		switch kv := ex.get(fr, x.Key).(type) {
+		case *StrV:
+			k, ok = kv.concrete()
+		case *Term:
+			if kv.IsConst() {
+				k, ok = fmt.Sprintf("\x00int:%d:%d", kv.w, kv.c), true
+			}
+		}
 		if !ok {
-			ex.end("unsupported", "symbolic map key update")
+			ex.end("unsupported", "symbolic or non-string map key update")
 		}
 		if ex.initDone && m.shared {
 			ex.sharedWrite("update of shared map at " + ex.pos(x.Pos()) + " in " + x.Parent().Name())
@@ -576,6 +605,48 @@ func (ex *Exec) instr(fr *frame, in ssa.Instruction) {
 			fr.defers[i]()
 		}
 		fr.defers = nil
+	case *ssa.Range:
+		switch c := ex.get(fr, x.X).(type) {
+		case *MapV:
+			it := &IterV{}
+			if c != nil {
+				keys := make([]string, 0, len(c.m))
+				for k := range c.m {
+					keys = append(keys, k)
+				}
+				sort.Strings(keys) // Go's order is unspecified; code whose result depends on it is outside the model
+				it.m, it.keys = c, keys
+			}
+			fr.env[fr.slots[x]] = it
+		case *StrV:
+			str, ok := c.concrete()
+			if !ok {
+				ex.end("unsupported", "range over a symbolic string")
+			}
+			fr.env[fr.slots[x]] = &IterV{str: str, isStr: true}
+		default:
+			ex.end("unsupported", "range over "+x.X.Type().String())
+		}
+	case *ssa.Next:
+		it := ex.get(fr, x.Iter).(*IterV)
+		if it.isStr {
+			if it.pos >= len(it.str) {
+				fr.env[fr.slots[x]] = TupleV{tFalse, BVC(64, 0), BVC(32, 0)}
+			} else {
+				r, w := utf8.DecodeRuneInString(it.str[it.pos:])
+				fr.env[fr.slots[x]] = TupleV{tTrue, BVC(64, uint64(it.pos)), BVC(32, uint64(r))}
+				it.pos += w
+			}
+		} else {
+			if it.pos >= len(it.keys) {
+				mt := x.Iter.(*ssa.Range).X.Type().Underlying().(*types.Map)
+				fr.env[fr.slots[x]] = TupleV{tFalse, zero(mt.Key()), zero(mt.Elem())}
+			} else {
+				k := it.keys[it.pos]
+				it.pos++
+				fr.env[fr.slots[x]] = TupleV{tTrue, strOf(k), it.m.m[k]}
+			}
+		}
 	case *ssa.DebugRef:
 	default:
 		ex.end("unsupported", fmt.Sprintf("instr %T at %s", in, ex.pos(in.Pos())))
@@ -742,6 +813,16 @@ func (ex *Exec) binop(x *ssa.BinOp, a, b Val) Val {
 			}
 			return eq
 		}
+		switch x.Op {
+		case token.LSS:
+			return ex.strLess(sa, sb, 0)
+		case token.GTR:
+			return ex.strLess(sb, sa, 0)
+		case token.LEQ:
+			return Not(ex.strLess(sb, sa, 0))
+		case token.GEQ:
+			return Not(ex.strLess(sa, sb, 0))
+		}
 		ex.end("unsupported", "string op "+x.Op.String())
 	}
 	ta, okA := a.(*Term)
@@ -884,8 +965,16 @@ func (ex *Exec) loadSym(p *SymElem) Val {
 			}
 			return t.fn.String()
 		}
-		ex.end("unsupported", fmt.Sprintf("table elem %T", v))
 		return ""
+	}
+	if len(p.elems) > 0 {
+		switch load(p.elems[0]).(type) {
+		case *Term, *FuncV:
+		default:
+			// aggregate or string elements: concretise the index
+			i := int(ex.concretize(p.idx))
+			return load(p.elems[i])
+		}
 	}
 	seen := map[string]*grp{}
 	for i, o := range p.elems {
@@ -1103,8 +1192,26 @@ func (ex *Exec) lookup(fr *frame, x *ssa.Lookup) Val {
 	if !ok {
 		ex.end("unsupported", "lookup on non-map")
 	}
-	key := ex.get(fr, x.Index).(*StrV)
 	zeroV := zero(x.X.Type().Underlying().(*types.Map).Elem())
+	if kt, isTerm := ex.get(fr, x.Index).(*Term); isTerm {
+		// integer-keyed map: only concrete keys are supported
+		if !kt.IsConst() {
+			return ex.lookupIntSym(x, m, kt, zeroV)
+		}
+		if m != nil {
+			if v, ok := m.m[fmt.Sprintf("\x00int:%d:%d", kt.w, kt.c)]; ok {
+				if x.CommaOk {
+					return TupleV{v, tTrue}
+				}
+				return v
+			}
+		}
+		if x.CommaOk {
+			return TupleV{zeroV, tFalse}
+		}
+		return zeroV
+	}
+	key := ex.get(fr, x.Index).(*StrV)
 	ret := func(v Val, ok bool) Val {
 		if x.CommaOk {
 			return TupleV{v, BoolC(ok)}
@@ -1253,4 +1360,103 @@ func slotsOf(fn *ssa.Function) map[ssa.Value]int {
 	}
 	slotCache[fn] = m
 	return m
+}
+
+// paranoidCheck: with -paranoid every verdict of the byte-domain procedure is re-decided by z3 under the current path condition.
+func (ex *Exec) paranoidCheck(a *Term, feasible bool) {
+	if !ex.paranoid || a.IsConst() {
+		return
+	}
+	ex.paranoidN++
+	ex.sol.Push()
+	ex.sol.Assert(a)
+	r := ex.sol.Check()
+	ex.sol.Pop()
+	if (r == "sat") != feasible {
+		ex.paranoidBad++
+	}
+}
+
+var modelled = map[string]bool{
+	"strings.IndexByte": true, "bytes.IndexByte": true, "strings.Index": true, "strings.Contains": true, "strings.HasPrefix": true,
+	"strings.HasSuffix": true, "strings.ToUpper": true, "strings.ToLower": true, "strings.ReplaceAll": true, "strings.TrimLeftFunc": true,
+	"(*strings.Builder).WriteByte": true, "(*strings.Builder).WriteString": true, "(*strings.Builder).Grow": true, "(*strings.Builder).String": true,
+	"(*sync.Mutex).Lock": true, "(*sync.Mutex).Unlock": true, "(*sync.RWMutex).Lock": true, "(*sync.RWMutex).Unlock": true,
+	"(*sync.RWMutex).RLock": true, "(*sync.RWMutex).RUnlock": true, "(*sync.Mutex).TryLock": true, "(*sync.Once).Do": true,
+	"(*sync.Pool).Put": true, "(*sync.Pool).Get": true,
+}
+
+// strLess: lexicographic a[i:] < b[i:] as a term (lengths are concrete).
+func (ex *Exec) strLess(a, b *StrV, i int) *Term {
+	if i >= len(b.b) {
+		return tFalse
+	}
+	if i >= len(a.b) {
+		return tTrue
+	}
+	ex.cost++
+	return Or(Cmp("bvult", a.b[i], b.b[i]), And(Cmp("=", a.b[i], b.b[i]), ex.strLess(a, b, i+1)))
+}
+
+// lookupIntSym: look-up in an integer-keyed map with a symbolic key: fork on the distinct result values
+// (condition: the key equals one of the keys carrying that value), plus "absent".
+func (ex *Exec) lookupIntSym(x *ssa.Lookup, m *MapV, key *Term, zeroV Val) Val {
+	ret := func(v Val, ok bool) Val {
+		if x.CommaOk {
+			return TupleV{v, BoolC(ok)}
+		}
+		return v
+	}
+	if m == nil || len(m.m) == 0 {
+		return ret(zeroV, false)
+	}
+	if len(m.m) > 20000 {
+		ex.end("unsupported", "symbolic look-up in a very large integer-keyed map")
+	}
+	type grp struct {
+		v    Val
+		cond []*Term
+	}
+	var groups []*grp
+	byv := map[string]*grp{}
+	prefix := fmt.Sprintf("\x00int:%d:", key.w)
+	ks := make([]string, 0, len(m.m))
+	for k := range m.m {
+		ks = append(ks, k)
+	}
+	sort.Strings(ks)
+	for _, k := range ks {
+		if !strings.HasPrefix(k, prefix) {
+			continue
+		}
+		var c uint64
+		fmt.Sscanf(k[len(prefix):], "%d", &c)
+		v := m.m[k]
+		t, isT := v.(*Term)
+		if !isT {
+			ex.end("unsupported", "integer-keyed map with non-scalar values")
+		}
+		id := t.String()
+		g := byv[id]
+		if g == nil {
+			g = &grp{v: v}
+			byv[id] = g
+			groups = append(groups, g)
+		}
+		g.cond = append(g.cond, Cmp("=", key, BVC(key.w, c)))
+	}
+	i, _ := ex.forkE(func() ([]*Term, []uint64) {
+		var alts, all []*Term
+		for _, g := range groups {
+			o := Or(g.cond...)
+			alts = append(alts, o)
+			all = append(all, o)
+		}
+		alts = append(alts, Not(Or(all...)))
+		return alts, nil
+	}, true)
+	if i == len(groups) {
+		return ret(zeroV, false)
+	}
+	return ret(groups[i].v, true)
 }
